@@ -83,9 +83,10 @@ def npIsFiniteAll (v : Val) : NpRes :=
 (`all(_all_finite(v) for v in value)`).
 ```
     try:    return bool(np.isfinite(value).all())
-    except TypeError:  return all(_all_finite(v) for v in value) if isinstance(value, (list, tuple)) else True
+    except TypeError:  return all(_all_finite(v) for v in value) if isinstance(value, (list, tuple, ndarray)) else True
     except ValueError: return all(_all_finite(v) for v in value)
-``` -/
+```
+(the model's arrays are 1-d float arrays, which never take the `TypeError` branch) -/
 def af : Bool → Val → Bool
   | true, .cons h t => af false h && af true t
   | false, .cons h t =>
@@ -148,10 +149,12 @@ structure St where
   marks : Nat → Nat → Bool           -- function, instance (`HookFunction._active_instances`)
   hitLimit : Bool                    -- ghost: the recursion limit was reached at least once
   sawCycle : Bool                    -- ghost: some `if cycle` was evaluated in a re-entrant call
+  reading : Nat → Nat → Bool         -- ghost: instance, hook: a computing `Hook.__get__` of that hook is on the stack
+  reentered : Bool                   -- ghost: a hook was read (and had to be computed) while it was being computed
 
 def init : St :=
   { dict := fun _ _ => none, cache := fun _ _ => none, marks := fun _ _ => false,
-    hitLimit := false, sawCycle := false }
+    hitLimit := false, sawCycle := false, reading := fun _ _ => false, reentered := false }
 
 /-- `d.get(name, None)` followed by `is not None` -/
 def present : Option Val → Option Val
@@ -166,6 +169,14 @@ def St.setDict (st : St) (i h : Nat) (v : Option Val) : St :=
 
 def St.setMark (st : St) (f i : Nat) (b : Bool) : St :=
   { st with marks := fun f' i' => if f' = f ∧ i' = i then b else st.marks f' i' }
+
+def St.setReading (st : St) (i h : Nat) (b : Bool) : St :=
+  { st with reading := fun i' h' => if i' = i ∧ h' = h then b else st.reading i' h' }
+
+/-- entering the computing part of `Hook.__get__` (ghost bookkeeping only) -/
+def St.enter (st : St) (i h : Nat) : St :=
+  { st with reading := fun i' h' => if i' = i ∧ h' = h then true else st.reading i' h',
+            reentered := st.reentered || st.reading i h }
 
 def St.clearCaches (st : St) : St := { st with cache := fun _ _ => none }
 
@@ -198,8 +209,8 @@ def eval (P : Prog) : Nat → St → Task → Res × St
       match present (st.cache i h) with
       | some v => (.val v, st)
       | none =>
-        let (r, st1) := eval P n st (.chain i h (P.chain h))
-        (post r, store st1 i h (post r))
+        let (r, st1) := eval P n (st.enter i h) (.chain i h (P.chain h))
+        (post r, store (st1.setReading i h (st.reading i h)) i h (post r))
   | _ + 1, st, .chain _ _ [] => (.val .none, st)
   | n + 1, st, .chain i h (f :: fs) =>
     let cyc := st.marks f i
